@@ -358,8 +358,13 @@ def check_leaders_P(leaders, n):
     return None
 
 
-def gen_swarm(rng, size, m, dup_rate, infeasible_rate):
-    """cost vectors on a 0.25 grid (bit-identical or well separated)"""
+def gen_swarm(rng, size, m, dup_rate, infeasible_rate, near=False):
+    """cost vectors on a 0.25 grid (bit-identical or well separated); with `near` some coordinates are moved by a relative
+    gap k*1e-13, k in 1..10^4 (nearly tied but different: hundreds to millions of ulps, so exact arithmetic decides)"""
+    def nudge(v):
+        if near and rng.random() < 0.4:
+            return v * (1 + int(10 ** rng.uniform(0, 4)) * 1e-13 * rng.choice([-1, 1]))
+        return v
     out = []
     span = rng.choice([3, 6, 12])
     for _ in range(size):
@@ -372,7 +377,7 @@ def gen_swarm(rng, size, m, dup_rate, infeasible_rate):
             c = [a * 0.25, (span - a) * 0.25 + rng.choice([0, 0, 0.25, 0.5])] + [rng.randint(0, 2) * 0.25 for _ in range(m - 2)]
         else:
             c = [rng.randint(0, span) * 0.25 for _ in range(m)]
-        out.append((c, (rng.random() < infeasible_rate)))
+        out.append(([nudge(v) for v in c], (rng.random() < infeasible_rate)))
     return out
 
 
@@ -387,10 +392,12 @@ def run_leaders(ctx, algs):
             dup_rate = rng.choice([0.0, 0.0, 0.0, 0.15])
             inf_rate = rng.choice([0.0, 0.0, 0.3])
             alg = make_alg(name, [(0.0, 1.0)] * 2, n_obj=m, pop=N)
+            near = rng.random() < 0.3
+            ctx.count("leaders_sequences_with_near_ties" if near else "leaders_sequences_grid")
             counter = [0]
             history = []          # for the replay: swarms as offered, generation by generation
             for g in range(rng.randint(1, 6)):
-                spec = gen_swarm(rng, rng.randint(1, 10), m, dup_rate, inf_rate)
+                spec = gen_swarm(rng, rng.randint(1, 10), m, dup_rate, inf_rate, near)
                 swarm = []
                 for c, mk in spec:
                     p = particle([0.5, 0.5], c, mk, k=counter[0])
@@ -497,7 +504,7 @@ def run(ctx):
                 "coordinate leaving the box / truncation that actually cuts an existing leader set; distinct = distinct encoded inputs")
     ctx.assumptions += ["finite floats; velocity/position arithmetic compared with exact rationals within 1e-9 relative, exactly on a bound "
                         "and for untouched values; generated x+v is either exact (dyadic) or further than 1e-9 relative from a bound",
-                        "leader archive: costs on a 0.25 grid or as produced by real runs (rounded to 7 decimals), markers are the booleans the code produces",
+                        "leader archive: costs on a 0.25 grid, 30% of the sequences with nearly tied values (relative gaps 1e-13..1e-9), or as produced by real runs (rounded to 7 decimals), markers are the booleans the code produces",
                         "lb <= ub for every parameter"]
     import random as _random
     state = _random.getstate()
